@@ -232,6 +232,24 @@ Theorem C17_parse_size_exact_partial :
 Proof. exact accept_size_denotes. Qed.
 Print Assumptions C17_parse_size_exact_partial.
 
+(* conversely every string that denotes a product within 1..2^63-1 is accepted with exactly that
+   value, and a rejected string denotes nothing or a product outside that range: so accepted
+   values are exact EXCEPT for overflowing products (the refuted case above) *)
+Theorem C17_parse_size_complete :
+  forall s n u, denote s = Some (n, u) -> 1 <= n * u <= max_int64 -> accept_size s = Some (n * u).
+Proof. exact accept_size_complete. Qed.
+Print Assumptions C17_parse_size_complete.
+
+Example C17_parse_size_complete_nonvacuous :
+  denote (bs "+8gB"%string) = Some (8, 1073741824) /\ accept_size (bs "+8gB"%string) = Some 8589934592.
+Proof. split; vm_compute; reflexivity. Qed.
+
+Theorem C17_parse_size_rejects :
+  forall s, accept_size s = None ->
+  match denote s with None => True | Some (n, u) => ~ (1 <= n * u <= max_int64) end.
+Proof. exact accept_size_rejects. Qed.
+Print Assumptions C17_parse_size_rejects.
+
 (* ---- the handlers that read the (limited) body ---- *)
 (* whatever the consumer's read pattern, the backend receives a prefix of the body never longer
    than the limit, and exactly the first [limit] bytes when the reader reported too-large *)
